@@ -31,6 +31,8 @@ from typing import Any, Iterator
 
 VARS = ("a", "b", "c")
 CONSTS = (0, 1, 2, 3)
+# wide integer literals (beyond 2**53: adjacent values are different integers but round to the same double)
+WIDE_CONSTS = (2 ** 53, 2 ** 53 + 1, 10 ** 30, 10 ** 30 + 1, 1700000000000000000, 1700000000000000001, 2 ** 64 - 1)
 ARITH = ("+", "-", "*", "//", "%")          # '**' is generated separately: exponent is a small constant
 COMMUTATIVE = ("+", "*")
 CMPS = ("<", "<=", ">", ">=", "==", "!=")
@@ -335,7 +337,10 @@ def separating_assignment(x, y):
 def random_expr(rng, n: int):
     """A random tree of exactly ``n`` nodes; half of the binary operators are + or * so chains are frequent."""
     if n == 1:
-        return ("v", rng.choice(VARS)) if rng.random() < 0.65 else ("c", rng.choice(CONSTS))
+        r1 = rng.random()
+        if r1 < 0.04:
+            return ("c", rng.choice(WIDE_CONSTS))
+        return ("v", rng.choice(VARS)) if r1 < 0.65 else ("c", rng.choice(CONSTS))
     if n == 2:
         x = random_expr(rng, 1)
         return ("un", "-", x) if rng.random() < 0.6 else ("call", "abs", (x,))
@@ -655,6 +660,9 @@ def mutants(t):
             for c in CONSTS:
                 if c != s[1]:
                     yield "constant_changed", replace_at(t, path, ("c", c))
+            if s[1] > 2 ** 52:
+                yield "constant_changed", replace_at(t, path, ("c", s[1] + 1))
+                yield "constant_changed", replace_at(t, path, ("c", s[1] - 1))
         elif k == "v":
             for v in VARS:
                 if v != s[1]:
